@@ -20,6 +20,19 @@ Property theorems only (helper lemmas: `Lemmas/{ModCmp,Heap,Tcb,TcbInv}.lean`). 
 namespace Elvis.Tcp
 open Tcb
 
+/-! ## tie of the circular comparisons to `modular_cmp.rs` -/
+
+/-- the hand-written comparisons the model uses equal the kernels extracted from the current
+    `tcb/modular_cmp.rs` (an edit of that file breaks this theorem) -/
+theorem c17_modcmp_tied :
+    (∀ a b, ModCmp.modLt a b = Elvis.Gen.ModCmp.mod_lt a b) ∧
+    (∀ a b, ModCmp.modLeq a b = Elvis.Gen.ModCmp.mod_leq a b) ∧
+    (∀ a b, ModCmp.modGt a b = Elvis.Gen.ModCmp.mod_gt a b) ∧
+    (∀ a b, ModCmp.modGeq a b = Elvis.Gen.ModCmp.mod_geq a b) ∧
+    (∀ a ab b bc c, ModCmp.modBounded a ab b bc c = Elvis.Gen.ModCmp.mod_bounded a ab.toGen b bc.toGen c) :=
+  ⟨ModCmp.modLt_eq_generated, ModCmp.modLeq_eq_generated, ModCmp.modGt_eq_generated,
+   ModCmp.modGeq_eq_generated, ModCmp.modBounded_eq_generated⟩
+
 /-! ## no sequence of calls crashes the endpoint -/
 
 /-- everything the peer (segments) and the local user and timer (API calls) can do to a TCB -/
